@@ -7,8 +7,8 @@
    against the backend that replays these results ([script_step]); the encoding/json, sha256
    and http.Redirect oracles are the values the harness computed with the real libraries. *)
 From Coq Require Import String.
-From OCI Require Export Base.Outcome Model.Server Model.ServerSpec.
-From OCI Require Import Proofs.Request Proofs.Server Proofs.ServerObs.
+From OCI Require Export Base.Outcome Model.Server Model.ServerSpec Model.ServerStream.
+From OCI Require Import Proofs.Request Proofs.Server Proofs.ServerObs Proofs.ServerStream.
 
 (* ---------------------------------------------------------------- case *)
 
@@ -39,6 +39,12 @@ Inductive case :=
            (dg : bytes)                    (* digest.FromBytes(body).String() *)
            (subj : option (option bytes))  (* the harness's json.Unmarshal of the body's "subject" *)
            (ob : obs)
+  (* a served request whose backend handed out a reader that does not simply deliver its content:
+     its Read failed part-way, or its Close failed.  The trace carries what the reader delivered
+     ([VRead d data]: what io.Copy read from it); [rs] carries, reader by reader, what it had
+     promised beyond that and the errors of Read and Close (Model/ServerStream.v) *)
+  | CStream (o : copts) (req : hreq) (dg : bytes) (subj : option (option bytes)) (ob : obs)
+            (rs : list rstream)
   | CParse (method path rawquery : bytes) (res : pobs) (cns : cobs)
   | CRange (a : bytes) (res : option (Z * Z))        (* ocirequest.ParseRange *)
   | CRangeStr (a b : Z) (res : bytes).               (* ocirequest.RangeString *)
@@ -102,17 +108,23 @@ Definition cobs_eqb (a b : cobs) : bool :=
   | _, _ => false
   end.
 
+Definition serve_agrees (o : copts) (req : hreq) (dg : bytes) (subj : option (option bytes)) (ob : obs) : bool :=
+  let '(_, tr, r) := run_case o req dg subj ob in
+  match r, ob with
+  | Panic, OPanic tr' => trace_eqb tr tr'
+  | Ok resp, OResp st hdrs body json tr' =>
+      Z.eqb (p_status resp) st && headers_eqb (p_hdrs resp) hdrs && beqb (p_body resp) body
+      && option_eqb jval_eqb (p_json resp) json && trace_eqb tr tr'
+  | _, _ => false
+  end.
+
 Definition model_agrees (c : case) : bool :=
   match c with
-  | CServe o req dg subj ob =>
-      let '(_, tr, r) := run_case o req dg subj ob in
-      match r, ob with
-      | Panic, OPanic tr' => trace_eqb tr tr'
-      | Ok resp, OResp st hdrs body json tr' =>
-          Z.eqb (p_status resp) st && headers_eqb (p_hdrs resp) hdrs && beqb (p_body resp) body
-          && option_eqb jval_eqb (p_json resp) json && trace_eqb tr tr'
-      | _, _ => false
-      end
+  | CServe o req dg subj ob => serve_agrees o req dg subj ob
+  (* the model reads a reader through what it delivered: a reader that failed after k bytes is
+     to the handlers a reader of k bytes (the error of io.Copy and the error of a deferred Close
+     are dropped), so the prediction is the one for the trace as it stands *)
+  | CStream o req dg subj ob rs => serve_agrees o req dg subj ob && streams_fit (obs_trace ob) rs
   | CParse m p q res cns =>
       let r := parse_req L m p q in
       pobs_eqb (pobs_of r) res
@@ -136,6 +148,18 @@ Definition obs_ok (c : case) : bool :=
          | OResp st hdrs body json tr =>
              spec_ok L (opts_of o) req tr (mkresp st hdrs body json)
          end
+  (* a reader failed part-way (or its Close failed): everything above, on the trace that says
+     what the reader delivered, and [stream_ok]: a success status that is out is not followed by an
+     error document, and the body is the beginning of what the reader had promised *)
+  | CStream o req dg subj ob rs =>
+      let tr := obs_trace ob in
+      negb (wb_trace tr && wb_locs (o_locs (opts_of o)) tr && wb_streams rs)
+      || match ob with
+         | OPanic _ => false
+         | OResp st hdrs body json tr =>
+             spec_ok L (opts_of o) req tr (mkresp st hdrs body json)
+             && stream_ok tr rs (mkresp st hdrs body json)
+         end
   | CParse _ _ _ res cns =>
       match res with
       | PPanic => false
@@ -151,7 +175,7 @@ Definition obs_ok (c : case) : bool :=
    unknown path); a parse case counts when the router recognised a kind or refused a name *)
 Definition nontrivial (c : case) : bool :=
   match c with
-  | CServe _ _ _ _ ob =>
+  | CServe _ _ _ _ ob | CStream _ _ _ _ ob _ =>
       let tr := obs_trace ob in
       wb_trace tr &&
       (match tr with [] => false | _ => true end
@@ -164,31 +188,58 @@ Definition nontrivial (c : case) : bool :=
   | CRangeStr _ _ _ => true
   end.
 
+(* what an agreeing served request says about the model's run *)
+Lemma serve_agrees_sound o req dg subj ob :
+  serve_agrees o req dg subj ob = true ->
+  let tr := obs_trace ob in
+  wb_trace tr = true -> wb_locs (o_locs (opts_of o)) tr = true ->
+  match ob with
+  | OPanic _ => False
+  | OResp st hdrs bd js tr =>
+      spec_ok L (opts_of o) req tr (mkresp st hdrs bd js) = true
+      /\ forall data, last_of reader_data tr None = Some data -> (200 <= st < 300)%Z -> bd = data /\ js = None
+  end.
+Proof.
+  unfold serve_agrees, run_case.
+  set (body := match ob with OResp _ _ b _ _ => b | _ => [] end).
+  set (loc := match ob with
+              | OResp _ h _ _ _ => match hget H_location h with Some l => l | None => [] end
+              | _ => [] end).
+  pose proof (handle_conforms L (fun _ => dg) (fun _ => subj) (fun _ => body) (fun _ _ => (loc, body))
+                (list bres) script_step (opts_of o) req (script_of (obs_trace ob))) as HC.
+  pose proof (handle_streams L (fun _ => dg) (fun _ => subj) (fun _ => body) (fun _ _ => (loc, body))
+                (list bres) script_step (opts_of o) req (script_of (obs_trace ob))) as HS.
+  destruct (handle _ _ _ _ _ _ _ _ _ _) as [[b' tr] r].
+  destruct r as [resp| | |]; destruct ob as [tr'|st hdrs bd js tr']; try discriminate; cbn [obs_trace].
+  - intros H. apply andb_true_iff in H as [H H5]. apply andb_true_iff in H as [H H4].
+    apply andb_true_iff in H as [H H3]. apply andb_true_iff in H as [H1 H2].
+    apply trace_eqb_eq in H5. subst tr'. intros W1 W2.
+    destruct (HC W1 W2) as (resp' & E & S). inversion E. subst resp'.
+    apply Z.eqb_eq in H1. apply beqb_eq in H3. destruct resp as [rs rh rb rj].
+    cbn [p_status p_hdrs p_body p_json] in *. subst. split.
+    + eapply spec_ok_ext; eauto.
+    + intros data LR ST. destruct (HS _ data eq_refl LR ST) as [B1 B2]. cbn [p_body p_json] in B1, B2.
+      subst. split; [reflexivity|]. destruct js; [discriminate | reflexivity].
+  - intros H. apply trace_eqb_eq in H. subst tr'. intros W1 W2.
+    destruct (HC W1 W2) as (resp' & E & _). discriminate.
+Qed.
+
 Lemma corr_sound c : model_agrees c = true -> obs_ok c = true.
 Proof.
-  destruct c as [o req dg subj ob|m p q res cns|a res|a b res]; cbn [model_agrees obs_ok]; try reflexivity.
+  destruct c as [o req dg subj ob|o req dg subj ob rs|m p q res cns|a res|a b res]; cbn [model_agrees obs_ok]; try reflexivity.
   - (* a served request *)
-    unfold run_case.
-    set (body := match ob with OResp _ _ b _ _ => b | _ => [] end).
-    set (loc := match ob with
-                | OResp _ h _ _ _ => match hget H_location h with Some l => l | None => [] end
-                | _ => [] end).
-    pose proof (handle_conforms L (fun _ => dg) (fun _ => subj) (fun _ => body) (fun _ _ => (loc, body))
-                  (list bres) script_step (opts_of o) req (script_of (obs_trace ob))) as HC.
-    destruct (handle _ _ _ _ _ _ _ _ _ _) as [[b' tr] r].
-    destruct r as [resp| | |]; destruct ob as [tr'|st hdrs bd js tr']; try discriminate; cbn [obs_trace].
-    + intros H. apply andb_true_iff in H as [H H5]. apply andb_true_iff in H as [H H4].
-      apply andb_true_iff in H as [H H3]. apply andb_true_iff in H as [H1 H2].
-      apply trace_eqb_eq in H5. subst tr'.
-      destruct (wb_trace tr && wb_locs (o_locs (opts_of o)) tr) eqn:W; [|reflexivity].
-      cbn [negb orb]. apply andb_true_iff in W as [W1 W2].
-      destruct (HC W1 W2) as (resp' & E & S). inversion E. subst resp'.
-      apply Z.eqb_eq in H1. apply beqb_eq in H3. destruct resp as [rs rh rb rj].
-      cbn [p_status p_hdrs p_body p_json] in *. subst.
-      eapply spec_ok_ext; eauto.
-    + intros H. apply trace_eqb_eq in H. subst tr'.
-      destruct (wb_trace tr && wb_locs (o_locs (opts_of o)) tr) eqn:W; [|reflexivity].
-      apply andb_true_iff in W as [W1 W2]. destruct (HC W1 W2) as (resp' & E & _). discriminate.
+    intros H. pose proof (serve_agrees_sound o req dg subj ob H) as S. cbv zeta in S.
+    destruct (wb_trace (obs_trace ob) && wb_locs (o_locs (opts_of o)) (obs_trace ob)) eqn:W; [|reflexivity].
+    apply andb_true_iff in W as [W1 W2]. specialize (S W1 W2).
+    destruct ob as [tr'|st hdrs bd js tr']; [contradiction|]. cbn [negb orb]. apply S.
+  - (* a served request with a reader that failed *)
+    intros H. apply andb_true_iff in H as [H _].
+    pose proof (serve_agrees_sound o req dg subj ob H) as S. cbv zeta in S.
+    destruct (wb_trace (obs_trace ob) && wb_locs (o_locs (opts_of o)) (obs_trace ob) && wb_streams rs) eqn:W; [|reflexivity].
+    apply andb_true_iff in W as [W _]. apply andb_true_iff in W as [W1 W2]. specialize (S W1 W2).
+    destruct ob as [tr'|st hdrs bd js tr']; [contradiction|]. cbn [negb orb obs_trace] in *.
+    destruct S as [S1 S2]. rewrite S1. cbn [andb].
+    apply stream_ok_of_last. exact S2.
   - (* the router on its own *)
     intros H. apply andb_true_iff in H as [H1 H2].
     pose proof (parse_req_good L m p q) as G.
